@@ -21,6 +21,10 @@ def run_check(prop, tier, repo):
     check = Check(prop, tier, repo)
     try:
         mod.run(check, repo, tier)
+        if check.floor_failures and not check.findings:
+            return analysis_error(prop, tier, "; ".join(check.floor_failures))
+        for m in check.floor_failures:
+            print(f"NOTE: instance floor not met (reported violations take precedence): {m}")
         return check.finish()
     except AnalysisError as e:
         return analysis_error(prop, tier, str(e))
